@@ -176,6 +176,35 @@ def handle (j : Json) : Json :=
       | .cerr k => Json.mkObj [("kind", "cerr"), ("cls", Json.str k.name)]
       | .crash x => Json.mkObj [("kind", "crash"), ("exc", Json.str x)]
       | .oom w => Json.mkObj [("kind", "oom"), ("why", Json.str w)]
+  | "lex" =>
+    -- the token list of the character scanner: classes, operator texts, values of the leaves, inner text of groups
+    match getStr? j "expr" with
+    | none => Json.mkObj [("kind", "bad-request")]
+    | some e =>
+      if !inDomain e.toList then Json.mkObj [("kind", "oom"), ("why", "text outside the modelled alphabet")] else
+      let vars : VarEnv := match j.getObjVal? "vars" with
+        | .ok (.arr a) => a.toList.filterMap fun x => match x with
+          | .arr #[.str n, v] => (match v.getInt? with | .ok i => some (n.toList, Val.int i) | _ => none)
+          | _ => none
+        | _ => []
+      let clsName : Cls → String
+        | .str => "String" | .num => "Number" | .bool => "Boolean" | .var => "Variable" | .grp => "Tokenizer"
+        | .math => "MathOperator" | .cond => "ConditionalOperator" | .comma => "CommaOperator"
+      let jTok : Tok → Json := fun t =>
+        match t.cls with
+        | .grp => Json.arr #[Json.str "Tokenizer", Json.str (strOf (stripParens t.text)), toJson t.opp]
+        | .math | .cond | .comma => Json.arr #[Json.str (clsName t.cls), Json.str (strOf t.text)]
+        | _ => match evalTok vars 1 t with
+          | .ok v => Json.arr #[Json.str (clsName t.cls), Json.str (showVal v)]
+          | _ => Json.arr #[Json.str (clsName t.cls), Json.str "?"]
+      match lex (vars.map (·.1)) e.toList with
+      | .ok toks =>
+        if toks.any (fun t => t.cls == .num && (match evalTok vars 1 t with | .ok _ => false | _ => true)) then
+          Json.mkObj [("kind", "oom"), ("why", "a number literal outside the exact-arithmetic domain")]
+        else Json.mkObj [("kind", "ok"), ("toks", Json.arr (toks.map jTok).toArray)]
+      | .cerr k => Json.mkObj [("kind", "cerr"), ("cls", Json.str k.name)]
+      | .crash x => Json.mkObj [("kind", "crash"), ("exc", Json.str x)]
+      | .oom w => Json.mkObj [("kind", "oom"), ("why", Json.str w)]
   | _ => Json.mkObj [("kind", "bad-request")]
 
 partial def loop (hin : IO.FS.Stream) (hout : IO.FS.Stream) : IO Unit := do
